@@ -326,11 +326,16 @@ class PluginEnv:
     ud:  {module name (e.g. 'x1234'): ('echo',) | ('raises', msg) | ('none',) | ('text', t)}
     src: {module name (e.g. 'xsrc' or 'o8d00'): ('echo',) | ('raises',) | ('text', t)}
     callout: {creator lower (e.g. 'x'): ('table', {proc: [lines]}) | ('raises',)}
+    registry: the message registry, a list of entries in the real registry's JSON shape
+        {"SRC": {"ReasonCode": "0x2600", "Type": "BD", "Words6To9": {"6": {"Description": ..., "AdditionalDataPropSource": ...}}},
+         "Documentation": {"Message": ..., "MessageArgSources": ["SRCWord6", ...]}}
+        (installed as `pel.peltool.src.registry.pels`; optional members may be missing)
     The shipped `ocallouts` table is always part of the environment (read from the live module).
     """
 
-    def __init__(self, allow=True, ud=None, src=None, callout=None, comp_ids=None):
+    def __init__(self, allow=True, ud=None, src=None, callout=None, comp_ids=None, registry=None):
         self.allow = allow
+        self.registry = list(registry or [])
         self.ud = ud or {}
         self.src = src or {}
         self.callout = dict(callout or {})
@@ -354,12 +359,22 @@ class PluginEnv:
         def cob(b):
             # ('table_raise', procs, bad): raises for the procedure `bad`, which the model sees as "no description"
             return 'raises' if b[0] == 'raises' else 'table ' + tlist(b[1].items(), lambda kv: tt(kv[0]) + ' ' + tlist(kv[1], tt))
-        return 'setenv %d %s %s %s %s' % (
+        def topt(v, f=tt):
+            return '0' if v is None else '1 ' + f(v)
+
+        def regb(e):
+            src, doc = e['SRC'], e['Documentation']
+            w69 = src.get('Words6To9') or {}
+            return ' '.join([topt(src.get('ReasonCode')), topt(src.get('Type')), tt(doc['Message']),
+                             topt(doc.get('MessageArgSources'), lambda l: tlist(l, tt)),
+                             tlist(w69.items(), lambda kv: tt(kv[0]) + ' ' + topt(kv[1].get('Description')) + ' ' + topt(kv[1].get('AdditionalDataPropSource')))])
+        return 'setenv %d %s %s %s %s %s' % (
             int(self.allow),
             tlist(self.comp_ids.items(), lambda kv: tt(kv[0]) + ' ' + tlist(kv[1].items(), lambda x: tt(x[0]) + ' ' + tt(x[1]))),
             tlist(self.ud.items(), lambda kv: tt(kv[0]) + ' ' + udb(kv[1])),
             tlist(self.src.items(), lambda kv: tt(kv[0]) + ' ' + srcb(kv[1])),
-            tlist(callout.items(), lambda kv: tt(kv[0]) + ' ' + cob(kv[1])))
+            tlist(callout.items(), lambda kv: tt(kv[0]) + ' ' + cob(kv[1])),
+            tlist(self.registry, regb))
 
     # ---- real side
     def install(self):
@@ -382,9 +397,14 @@ class PluginEnv:
         comp_id.componentIDs.clear()
         comp_id.componentIDs.update(self.comp_ids)
         comp_id.attemptedToParseCompIDs = True
+        from pel.peltool import src as _src
+        _src.registry.pels = self.registry
         return self
 
     def uninstall(self):
+        _src = sys.modules.get('pel.peltool.src')
+        if _src is not None:
+            _src.registry.pels = []
         if self.dir:
             for pkg in ('udparsers', 'srcparsers', 'calloutparsers'):
                 m = sys.modules.get(pkg)
